@@ -18,13 +18,13 @@ vlib.standard_check({
     "exe": "gv_c14",
     "harness": "c14",
     # harness args after the seed: ncases maxNodes mode
-    "streams": {"quick": [[0, 4, 1], [20000, 10, 0], [5000, 40, 0]],
-                "thorough": [[0, 5, 1], [300000, 10, 0], [100000, 40, 0]]},
-    "search": [[0, 4, 1], [30000, 12, 0]],
+    "streams": {"quick": [[0, 4, 1], [20000, 10, 0], [5000, 40, 0], [4000, 12, 2]],
+                "thorough": [[0, 5, 1], [300000, 10, 0], [100000, 40, 0], [80000, 14, 2]]},
+    "search": [[0, 4, 1], [30000, 12, 0], [30000, 12, 2]],
     "signature": signature,
     "eval_key": "ops",
     "nontrivial": lambda t: t.get("positive_verdicts_checked", 0) + t.get("builds", 0),
-    "rule": "condition networks of real hlim nodes (AND/NOT/OR logic, pass-through signals, constants 0/1/x, pins, unconnected inputs): "
+    "rule": "mode 2: half of the atoms are comparisons of one of two shared 3-bit vectors with a constant (either operand order); truth tables then range over all values of the vectors, so related atoms (x==5, x==6) are never both true; cannotBothBeTrue is also queried with checkComparisons=true; condition networks of real hlim nodes (AND/NOT/OR logic, pass-through signals, constants 0/1/x, pins, unconnected inputs): "
             "exhaustive enumeration of all shapes with 2 leaves and <=3 (quick) / <=4 (thorough) internal nodes, plus random DAGs up to 40 nodes; "
             "every analysed form, every positive verdict on every ordered pair of roots and every rebuilt circuit is checked against the full truth table "
             "(<=12 leaves) of the original network; non-trivial = positive verdicts + rebuilt circuits checked",
